@@ -177,9 +177,18 @@ fn main() {
         let q0 = gen_text(&mut r, 8);
         let c0 = gen_text(&mut r, 6);
         let interactive = r.chance(1, 4);
-        let hq: Vec<String> = (0..r.below(4)).map(|_| gen_text(&mut r, 6)).collect();
-        let hc: Vec<String> = (0..r.below(3)).map(|_| gen_text(&mut r, 6)).collect();
-        let evs = gen_events(&mut r);
+        let mut hq: Vec<String> = (0..r.below(4)).map(|_| gen_text(&mut r, 6)).collect();
+        let mut hc: Vec<String> = (0..r.below(3)).map(|_| gen_text(&mut r, 6)).collect();
+        // histories with repeated entries (the same line entered twice in a row, or the line being edited equal to an entry)
+        if r.chance(1, 4) { for h in [&mut hq, &mut hc] { if !h.is_empty() { let k = r.below(h.len() as u64) as usize; let e = h[k].clone(); h.insert(k, e); } } }
+        let (q0, c0) = if r.chance(1, 8) { (hq.last().cloned().unwrap_or(q0.clone()), hc.last().cloned().unwrap_or(c0.clone())) } else { (q0, c0) };
+        let mut evs = gen_events(&mut r);
+        // a walk through the history and back: previous / next must undo each other
+        if r.chance(1, 5) {
+            let at = r.below(evs.len() as u64 + 1) as usize;
+            let walk: Vec<Ev> = (0..(2 + r.below(6))).map(|_| if r.chance(3, 5) { Ev::PreviousHistory } else { Ev::NextHistory }).collect();
+            for (k, e) in walk.into_iter().enumerate() { evs.insert(at + k, e); }
+        }
         let input = format!("query={:?} cmd_query={:?} interactive={} query_history={:?} cmd_history={:?} events={:?}", q0, c0, interactive, hq, hc, evs);
         let (q0c, c0c, hqc, hcc, evsc) = (q0.clone(), c0.clone(), hq.clone(), hc.clone(), evs.clone());
         let res = guarded(move || {
